@@ -19,7 +19,15 @@ MCScenarios ==
       recs |-> <<<< <<36, 1>>, <<3, 6>> >>, << <<39, 66>>, <<44, 1>> >>, << <<40, 5>>, <<45, 80>> >>, << <<40, 70>>, <<45, 3>> >> >>],
      [pops |-> <<40, 30, 20>>, proj |-> <<3, 3, 3>>,
       recs |-> <<<< <<40, 1>>, <<30, 0>>, <<20, 0>> >>, << <<40, 40>>, <<30, 30>>, <<20, 20>> >>, << <<1, 2>>, <<1, 0>>, <<1, 1>> >>, << <<0, 0>>, <<30, 5>>, <<20, 5>> >> >>]}
+\* two populations at sizes where the JOINT denominator C(n1, m1) C(n2, m2) leaves the f64 range although each factor alone
+\* does not (about 2^1073 and 2^1061), with every kind of source count; and a cohort whose OUTPUT has more than 2^16 cells
+MCJoint == {[factored |-> TRUE, pops |-> <<270, 270>>, proj |-> <<271, 271>>,
+             recs |-> <<<< <<270, 270>>, <<270, 270>> >>, << <<270, 1>>, <<270, 539>> >>, << <<269, 100>>, <<200, 0>> >> >>],
+            [factored |-> TRUE, pops |-> <<514, 20>>, proj |-> <<515, 21>>,
+             recs |-> <<<< <<514, 514>>, <<20, 20>> >>, << <<514, 3>>, <<20, 39>> >>, << <<400, 799>>, <<15, 1>> >> >>]}
+MCWide == {[factored |-> TRUE, pops |-> <<128, 128>>, proj |-> <<257, 257>>,
+            recs |-> <<<< <<128, 256>>, <<128, 256>> >>, << <<128, 255>>, <<128, 0>> >>, << <<128, 7>>, <<128, 200>> >>, << <<127, 7>>, <<128, 200>> >> >>]}
 MCScenariosQuick == {s \in MCScenarios : s.pops \in {<<600>>, <<90>>, <<40, 45>>, <<40, 30, 20>>} /\ s.proj # <<601>>}
                     \cup {[pops |-> <<600>>, proj |-> <<601>>, recs |-> <<R1(600, 0), R1(600, 1), R1(600, 2), R1(550, 37)>>]}
-ASSUME \A s \in MCScenarios : Len(s.pops) = Len(s.proj)
+ASSUME \A s \in MCScenarios \cup MCJoint \cup MCWide : Len(s.pops) = Len(s.proj)
 =============================================================================
